@@ -18,7 +18,7 @@ DEPTHS = [1, 8, 16, 32]
 CRIT_W = [1, 2, 126, 127, 128, 129, 130, 131, 253, 254, 255, 256, 257, 258]
 PY_W = [1, 2, 3, 63, 64, 125, 126, 127, 128, 129, 130, 131, 252, 253, 254, 255, 256, 257, 258]
 HUGE_W = [16383, 16384, 16385]
-V1_SAFE_ROW = 65022  # rows up to this many bytes provably fit the 16-bit count (Rle encode_bound)
+V1_SAFE_ROW = 65023  # rows up to this many bytes provably fit the 16-bit count (Rle encode_bound)
 
 
 # ------------------------------------------------------------------ content generators (twins of Compression/Corr.v)
@@ -251,6 +251,18 @@ def shapes(ck):
     for w in (7, 9, 10, 15, 17, 23, 1001):
         for h in (1, 2):
             yield (w, h, "bitw")
+    # the OverflowError boundary of the 16-bit row table (Properties/C04.v v1_safe_row: rows <= 65023 bytes always fit,
+    # 65024 bytes without repeats do not): exercised on the real code, depth-specific widths
+    if thorough:
+        for w in (65022, 65023, 65024, 65025):
+            yield (w, 1, "edge8")
+        for w in (32511, 32512):
+            yield (w, 1, "edge16")
+        for w in (16255, 16256):
+            yield (w, 1, "edge32")
+    else:
+        for w in (65023, 65024):
+            yield (w, 1, "edge8")
     if thorough:
         for w in HUGE_W:
             yield (w, 1, "huge")
@@ -266,13 +278,17 @@ def gen_cases(ck):
     """valid-length cases: ((codec, w, h, depth, version, n), content, tag)"""
     for (w, h, tag) in shapes(ck):
         for depth in DEPTHS:
+            if tag.startswith("edge") and depth != int(tag[4:]):
+                continue
             n = h * row_bytes(w, depth)
             for version in (1, 2):
                 for c in range(4):
-                    if c != 1 and version == 2 and tag != "small":
+                    if c != 1 and (tag.startswith("edge") or (version == 2 and tag != "small")):
                         continue  # the version only reaches the RLE row table
                     cls = classes(ck.rng)
-                    if tag == "huge" and ck.tier != "thorough":
+                    if tag.startswith("edge"):
+                        cls = [("ramp", 0, 1), cls[4]] + ([cls[1]] if ck.tier == "thorough" else [])
+                    elif tag == "huge" and ck.tier != "thorough":
                         # (extremes make ~25000 packets per 64 KiB row: minutes in the quadratic decoder model; thorough only)
                         cls = ck.rng.sample(cls[:5], 2)
                     elif tag == "rand" and ck.tier != "thorough":
@@ -438,7 +454,7 @@ def run():
     logging.getLogger("psd_tools").setLevel(logging.CRITICAL)
     ck = Check("C04")
     ck.rule = ("shapes: every (w,h) in 0..6 x 0..6, critical widths {1,2,126..131,253..258} x h in 1..3 (thorough: 1..5), 1-bit widths off the "
-               "byte grid, 16384x1 (thorough: 16383..16385 x 1) and 24 (thorough: 400) random shapes <= 64x64; x depth {1,8,16,32} x version x codec x "
+               "byte grid, 16384x1 (thorough: 16383..16385 x 1), rows of 65023/65024 bytes (thorough: 65022..65025, also at 16 and 32 bits) around the 16-bit row-table limit, and 24 (thorough: 400) random shapes <= 64x64; x depth {1,8,16,32} x version x codec x "
                "six content classes (constant, runs, ramp, alternating, noise, extremes) with fresh parameters; "
                "streams of an independent spec-following encoder (three PackBits strategies, prediction) and mutated streams; "
                "the RLE codec once more with rle_impl rebound to the pure-Python rle.py (widths 63,64,125..131,252..258, 1-bit 1001..1016, small shapes; codec, spec streams, containers); "
@@ -513,6 +529,8 @@ def run():
                 ck.notes.append("ZIP with prediction accepted a 1-bit raster: %r" % (g,))
         rt_cases.append(((g, ct), dg(rt)))
         # ---- independent encoder: its streams must decode to the same pixels
+        if r[0] == "ok" and c == 1 and version == 1 and tag.startswith("edge"):
+            ck.count("v1-row-table:row of %d bytes fits" % row_bytes(w, depth))
         if tag == "huge" and ck.tier != "thorough" and ct[0] == "const":
             continue
         streams = []
@@ -543,8 +561,8 @@ def run():
     if spec_cases:
         ck.sample({"independent_encoder_stream": spec_cases[len(spec_cases) // 2][0][0], "bytes": spec_cases[len(spec_cases) // 2][0][1][1][:48]})
     # the few very wide rasters cost seconds each inside coqc: their own shards, two cases per coqc
-    big = [i for i, x in enumerate(cases) if x[2] == "huge"]
-    small = [i for i, x in enumerate(cases) if x[2] != "huge"]
+    big = [i for i, x in enumerate(cases) if x[2] == "huge" or x[2].startswith("edge")]
+    small = [i for i, x in enumerate(cases) if not (x[2] == "huge" or x[2].startswith("edge"))]
     if len(spec_cases) > (40000 if ck.tier == "thorough" else 5000):
         spec_cases = ck.rng.sample(spec_cases, 40000 if ck.tier == "thorough" else 5000)
     for stream, fn, cs, chunk in (
@@ -696,7 +714,9 @@ def run():
             model_out = dg(r) if not (r[0] == "ok" and r[1] is None) else [h63_list(0, [7])]
             name = "roundtrip-vma"
         ck.count("container:" + name[10:])
-        if not okr and not (expect_reject and r[0] == "err" and r[1] == 1):
+        if (not okr and c == 1 and version == 1 and row_bytes(w, depth) > V1_SAFE_ROW and r[0] == "err" and r[1] == 5):
+            ck.count("guard:v1-row-does-not-fit")  # the same explicit guard as at codec level
+        elif not okr and not (expect_reject and r[0] == "err" and r[1] == 1):
             ck.fail(name, inp(g2, ct, channels=channels), canon(r)[:40] if not (r[0] == "ok" and (r[1] is None or isinstance(r[1], list))) else "planes differ",
                     "get_data(set_data(x)) == x", error=r[2] if r[0] == "err" else "")
         cont.append(((kind, channels, g2, ct), model_out))
